@@ -47,9 +47,9 @@ func (c12) Rule() string {
 func (c12) Components() map[string]string {
 	return map[string]string{
 		"every exported entry point named in the property": "real",
-		"inputs":          "produced by the simulator's corruption faults (bit flips, truncation, insertion, JSON-aware mutation, random bytes) on valid artefacts",
-		"os / os/exec":    "simos / simexec shims",
-		"panic monitor":   "task wrapper (stack attributed to code under test vs harness)",
+		"inputs":             "produced by the simulator's corruption faults (bit flips, truncation, insertion, JSON-aware mutation, random bytes) on valid artefacts",
+		"os / os/exec":       "simos / simexec shims",
+		"panic monitor":      "task wrapper (stack attributed to code under test vs harness)",
 		"allocation monitor": "runtime.MemStats.TotalAlloc delta per API call, ceiling 2 GiB",
 	}
 }
